@@ -261,6 +261,40 @@ def node_call_tags(node):
     return out
 
 
+def node_call_refs(node):
+    """{call site tag2: keys referenced inside that call's own argument subtree}."""
+    out = {}
+
+    def walk(a):
+        t = a[0]
+        if t in ("list", "tuple"):
+            for x in a[1]:
+                walk(x)
+        elif t == "dict":
+            for _, v in a[1]:
+                walk(v)
+        elif t == "call":
+            refs = set()
+            for x in a[2]:
+                arg_refs(x, refs)
+                walk(x)
+            for _, v in a[3]:
+                arg_refs(v, refs)
+                walk(v)
+            out[(a[1][0], a[1][1])] = refs
+
+    if node["kind"] == "task":
+        out[(node["tag"][0], node["tag"][1])] = node_deps(node)
+        for a in node["args"]:
+            walk(a)
+        for _, v in node["kwargs"]:
+            walk(v)
+    elif node["kind"] == "container":
+        for a in node["elems"]:
+            walk(a)
+    return out
+
+
 def evaluate(spec):
     """-> (values {key: value}, calls {tag2: (args, kwargs)}, deps {key: set})"""
     vals, calls, deps = {}, {}, {}
